@@ -507,6 +507,39 @@ fn node_size(p: &str) -> String {
     }
 }
 
+/// Execute `PUSH1 2 PUSH1 1 <opcode>` (top of stack = 1, second = 2) and report which constant ended up in which field
+/// of the node the opcode built.  The expectation (EVM operand roles) is evaluated here for the non-commutative opcodes.
+fn opcode_wiring(p: &str) -> String {
+    let name = str_param(p, "name").unwrap_or_default();
+    let byte: u8 = match name.as_str() {
+        "Add" => 0x01, "Mul" => 0x02, "Sub" => 0x03, "Div" => 0x04, "SDiv" => 0x05, "Mod" => 0x06, "SMod" => 0x07, "Exp" => 0x0a,
+        "SignExtend" => 0x0b, "Lt" => 0x10, "Gt" => 0x11, "SLt" => 0x12, "SGt" => 0x13, "Eq" => 0x14, "IsZero" => 0x15,
+        "And" => 0x16, "Or" => 0x17, "Xor" => 0x18, "Not" => 0x19, "Shl" => 0x1b, "Shr" => 0x1c, "Sar" => 0x1d, _ => 0x00,
+    };
+    let code = [0x60u8, 2, 0x60, 1, byte, 0x00];
+    let stream = InstructionStream::try_from(code.as_slice()).expect("disassembles");
+    let mut vm = VM::new(stream, Config::default(), LazyWatchdog.in_rc()).expect("vm");
+    let _ = vm.execute();
+    let st = &vm.stored_states()[0];
+    let top = st.stack().read(0).expect("result on the stack").clone();
+    let kw = |v: &RuntimeBoxedVal| match v.data() { RSVD::KnownData { value } => usize::from(*value) as i64, _ => -1 };
+    // (role of the operand that was on TOP of the stack, role of the second operand)
+    let (first, second, ok) = match top.data() {
+        RSVD::Subtract { left, right } | RSVD::LessThan { left, right } | RSVD::GreaterThan { left, right }
+        | RSVD::SignedLessThan { left, right } | RSVD::SignedGreaterThan { left, right } => (kw(left), kw(right), kw(left) == 1 && kw(right) == 2),
+        RSVD::Divide { dividend, divisor } | RSVD::SignedDivide { dividend, divisor } | RSVD::Modulo { dividend, divisor }
+        | RSVD::SignedModulo { dividend, divisor } => (kw(dividend), kw(divisor), kw(dividend) == 1 && kw(divisor) == 2),
+        RSVD::Exp { value, exponent } => (kw(value), kw(exponent), kw(value) == 1 && kw(exponent) == 2),
+        RSVD::SignExtend { size, value } => (kw(size), kw(value), kw(size) == 1 && kw(value) == 2),
+        RSVD::LeftShift { shift, value } | RSVD::RightShift { shift, value } | RSVD::ArithmeticRightShift { shift, value } => {
+            (kw(shift), kw(value), kw(shift) == 1 && kw(value) == 2)
+        }
+        _ => (0, 0, true),
+    };
+    format!("{{\"violates\": {}, \"opcode\": \"{}\", \"top_operand_went_to_first_role\": {}, \"first_role_holds\": {}, \"second_role_holds\": {}, \"node\": \"{}\"}}",
+        !ok, name, ok, first, second, format!("{}", top).replace('"', "'").chars().take(80).collect::<String>())
+}
+
 fn main() {
     let args: Vec<String> = std::env::args().collect();
     if args.len() < 3 {
@@ -520,6 +553,7 @@ fn main() {
         "fork_first_visit" => fork_first_visit(&p),
         "jump_target_bits" => jump_target_bits(&p),
         "halting_opcode" => halting_opcode(&p),
+        "opcode_wiring" => opcode_wiring(&p),
         "node_size" => node_size(&p),
         "truncated_push" => truncated_push(&p),
         "error_kind" => error_kind(&p),
